@@ -1,5 +1,6 @@
+import TrackpyV.Props.C06
 import TrackpyV.Proofs.ShiftRefine
--- import TrackpyV.Proofs.ShiftFind
+import TrackpyV.Proofs.ShiftFind
 import TrackpyV.Proofs.TransposeRefine
 -- import TrackpyV.Proofs.ShiftBandpass
 /-!
@@ -94,6 +95,247 @@ theorem shiftImg_pixel (n : Nat) (d : List Int) (img : Refine.Image) (p : List I
     simp only [List.getElem_map, List.getElem_range]
     rw [Refine.addVec_getD _ _ _ _ hi, List.getD_eq_getElem?_getD, List.getElem?_eq_getElem h2]
     simp
+
+/-! ## grey_dilation under a shift (any dimension) -/
+
+section find
+open Find Locate
+
+/-- **thr_shift.**  The percentile threshold is computed from the NON-ZERO pixels only
+(find.py:63-69), so it is the same for the content and for the content on a black canvas at any
+offset. -/
+theorem thr_shift (content big : Image) (off : List Nat) (h : IsEmbed content off big) (pct : Rat) :
+    percentileThr big pct = percentileThr content pct :=
+  percentileOf_perm h.nonzero_perm pct
+
+/-- **maxima_shift.**  Clause "moves every located feature by exactly that offset", stage
+`grey_dilation(precise=False)`, any dimension.  `big₁`, `big₂` show the same content at the offsets
+`off₁`, `off₂` on black canvases (possibly of different shapes).  With at least `margin` black pixels
+on every side of the content (`padOK`, decidable) and a threshold ≥ 0, the candidate maxima of
+both canvases are content pixels, and a content pixel `u` is a maximum of the one (at `u + off₁`)
+iff it is a maximum of the other (at `u + off₂`) — namely iff it is a maximum of the content with
+the box clipped to the content (`ContentMax`). -/
+theorem maxima_shift (content big₁ big₂ : Image) (off₁ off₂ : List Nat)
+    (h₁ : IsEmbed content off₁ big₁) (h₂ : IsEmbed content off₂ big₂)
+    (ks margin : List Nat) (thr : Rat) (hthr : 0 ≤ thr)
+    (hk : ks.length = content.shape.length) (hm : margin.length = content.shape.length)
+    (hp₁ : padOK big₁.shape off₁ content.shape margin = true)
+    (hp₂ : padOK big₂.shape off₂ content.shape margin = true) :
+    (∀ p ∈ candidates big₁ ks thr margin, ∃ u, InImage content.shape u ∧ p = addPos u off₁) ∧
+    (∀ p ∈ candidates big₂ ks thr margin, ∃ u, InImage content.shape u ∧ p = addPos u off₂) ∧
+    ∀ u, InImage content.shape u →
+      (addPos u off₁ ∈ candidates big₁ ks thr margin ↔ addPos u off₂ ∈ candidates big₂ ks thr margin) := by
+  have e₁ := mem_candidates_embed content big₁ off₁ h₁ ks margin thr hthr hk hm hp₁
+  have e₂ := mem_candidates_embed content big₂ off₂ h₂ ks margin thr hthr hk hm hp₂
+  refine ⟨?_, ?_, ?_⟩
+  · intro p hp
+    obtain ⟨u, rfl, hu, _⟩ := (e₁ p).mp hp
+    exact ⟨u, hu, rfl⟩
+  · intro p hp
+    obtain ⟨u, rfl, hu, _⟩ := (e₂ p).mp hp
+    exact ⟨u, hu, rfl⟩
+  · intro u hu
+    have key : ∀ (big : Image) (off : List Nat) (h : IsEmbed content off big)
+        (e : ∀ p, p ∈ candidates big ks thr margin ↔ ∃ u, p = addPos u off ∧ ContentMax content ks thr u),
+        addPos u off ∈ candidates big ks thr margin ↔ ContentMax content ks thr u := by
+      intro big off h e
+      rw [e]
+      constructor
+      · rintro ⟨v, hv, hc⟩
+        have := addPos_inj _ _ u v (fits_length h.fits).1 hu hc.1 hv
+        rw [this]; exact hc
+      · intro hc; exact ⟨u, rfl, hc⟩
+    rw [key big₁ off₁ h₁ e₁, key big₂ off₂ h₂ e₂]
+
+/-- **greyDilation_shift.**  The same for the function the driver runs: if `grey_dilation`
+answers on both canvases (`R₁`, `R₂`), the content is not black and the percentile is such that the
+threshold is ≥ 0, then both results consist of content pixels only, without repetition, and
+`u + off₁ ∈ R₁ ↔ u + off₂ ∈ R₂`: the maxima move by exactly `off₂ − off₁`.  (The threshold of the
+two runs is the same number by `thr_shift`.) -/
+theorem greyDilation_shift (content big₁ big₂ : Image) (off₁ off₂ : List Nat)
+    (h₁ : IsEmbed content off₁ big₁) (h₂ : IsEmbed content off₂ big₂)
+    (sep : List Rat) (pct : Rat) (margin : List Nat) (R₁ R₂ : List Pos)
+    (hR₁ : greyDilation big₁ sep pct (some margin) false = some R₁)
+    (hR₂ : greyDilation big₂ sep pct (some margin) false = some R₂)
+    (thr : Rat) (hthr : percentileThr content pct = some thr) (h0 : 0 ≤ thr)
+    (hp₁ : padOK big₁.shape off₁ content.shape margin = true)
+    (hp₂ : padOK big₂.shape off₂ content.shape margin = true) :
+    R₁.Nodup ∧ R₂.Nodup ∧
+    (∀ p ∈ R₁, ∃ u, InImage content.shape u ∧ p = addPos u off₁) ∧
+    (∀ p ∈ R₂, ∃ u, InImage content.shape u ∧ p = addPos u off₂) ∧
+    ∀ u, InImage content.shape u → (addPos u off₁ ∈ R₁ ↔ addPos u off₂ ∈ R₂) := by
+  have n₁ := (fits_length h₁.fits).2
+  have n₂ := (fits_length h₂.fits).2
+  have get : ∀ (big : Image) (off : List Nat) (h : IsEmbed content off big) (R : List Pos)
+      (hR : greyDilation big sep pct (some margin) false = some R) (hn : big.shape.length = content.shape.length),
+      R = candidates big (sep.map (boxSize content.shape.length)) thr margin ∧
+        sep.length = content.shape.length ∧ margin.length = content.shape.length := by
+    intro big off h R hR hn
+    obtain ⟨hw, hcase⟩ := greyDilationK_some hR
+    obtain ⟨_, hsl, hml, _, _⟩ := (wellFormed_iff _ _ _).mp hw
+    have ht : percentileThr big pct = some thr := by rw [thr_shift content big off h, hthr]
+    rcases hcase with ⟨hnone, _⟩ | ⟨thr', hthr', hR'⟩
+    · rw [hnone] at ht; cases ht
+    · rw [ht] at hthr'
+      injection hthr' with e
+      subst e
+      simp only [Bool.false_eq_true, if_false, Option.getD_some] at hR'
+      rw [hn] at hR' hsl hml
+      exact ⟨hR', hsl, by simpa using hml⟩
+  obtain ⟨e₁, hsl, hml⟩ := get big₁ off₁ h₁ R₁ hR₁ n₁
+  obtain ⟨e₂, _, _⟩ := get big₂ off₂ h₂ R₂ hR₂ n₂
+  have := maxima_shift content big₁ big₂ off₁ off₂ h₁ h₂ (sep.map (boxSize content.shape.length))
+    margin thr h0 (by simpa using hsl) hml hp₁ hp₂
+  rw [e₁, e₂]
+  exact ⟨candidates_nodup _ _ _ _, candidates_nodup _ _ _ _, this.1, this.2.1, this.2.2⟩
+
+/-- non-vacuity: C06's 3×3 example image (peak 5 in the centre, lower peak 2 in a corner) shown at
+two offsets on an 8×9 canvas built by `Locate.embed`; the checker accepts both, the padding
+hypothesis holds for the default margin 1, and the maxima are the two content peaks, moved -/
+def exContent : Image := ⟨[3, 3], #[1, 1, 1, 1, 5, 1, 1, 1, 2]⟩
+example : isEmbedB exContent [2, 3] (embed [8, 9] [2, 3] exContent) = true := by decide +kernel
+example : isEmbedB exContent [3, 1] (embed [8, 9] [3, 1] exContent) = true := by decide +kernel
+example : padOK [8, 9] [2, 3] [3, 3] [1, 1] = true ∧ padOK [8, 9] [3, 1] [3, 3] [1, 1] = true := by
+  decide
+example : greyDilation (embed [8, 9] [2, 3] exContent) [2, 2] 50 (some [1, 1]) false
+    = some [[3, 4], [4, 5]] := by decide +kernel
+example : greyDilation (embed [8, 9] [3, 1] exContent) [2, 2] 50 (some [1, 1]) false
+    = some [[4, 2], [5, 3]] := by decide +kernel
+example : percentileThr exContent 50 = some 1 := by decide +kernel
+
+/-! ## grey_dilation under transposition (2-D) -/
+
+/-- **maxima_transpose.**  Clause "transposing an integer image … swaps the coordinate columns",
+stage `grey_dilation(precise=False)`, 2-D: with separation and margin exchanged along with the
+axes, `(j, i)` is a maximum of the transposed image iff `(i, j)` is one of the image.  (Both
+results are duplicate-free lists in `np.where` order of their own image; the ORDER differs, which
+is why rows are matched by position.) -/
+theorem maxima_transpose (img imgT : Image) (H W : Nat) (h : IsTranspose img imgT H W)
+    (s0 s1 pct : Rat) (m0 m1 : Nat) (R RT : List Pos)
+    (hR : greyDilation img [s0, s1] pct (some [m0, m1]) false = some R)
+    (hRT : greyDilation imgT [s1, s0] pct (some [m1, m0]) false = some RT) (i j : Nat) :
+    [j, i] ∈ RT ↔ [i, j] ∈ R := by
+  obtain ⟨_, hcase⟩ := greyDilationK_some hR
+  obtain ⟨_, hcaseT⟩ := greyDilationK_some hRT
+  have ht : percentileThr imgT pct = percentileThr img pct := percentileOf_perm h.nonzero_perm pct
+  rcases hcase with ⟨hnone, rfl⟩ | ⟨thr, hthr, hR'⟩
+  · rcases hcaseT with ⟨_, rfl⟩ | ⟨thr', hthr', _⟩
+    · simp
+    · rw [ht, hnone] at hthr'; cases hthr'
+  · rcases hcaseT with ⟨hnone, _⟩ | ⟨thr', hthr', hRT'⟩
+    · rw [ht, hthr] at hnone; cases hnone
+    · rw [ht, hthr] at hthr'
+      injection hthr' with e
+      subst e
+      simp only [Bool.false_eq_true, if_false, Option.getD_some] at hR' hRT'
+      rw [hR', hRT', h.shape, h.shapeT]
+      exact mem_candidates_transpose img imgT H W h _ _ m0 m1 thr i j
+
+/-- every maximum of the transposed image is such a pair `(j, i)` (so `maxima_transpose` describes
+the whole result) -/
+theorem maxima_transpose_form (img imgT : Image) (H W : Nat) (h : IsTranspose img imgT H W)
+    (sep : List Rat) (pct : Rat) (margin? : Option (List Nat)) (RT : List Pos)
+    (hRT : greyDilation imgT sep pct margin? false = some RT) (p : Pos) (hp : p ∈ RT) :
+    ∃ i j, p = [j, i] ∧ i < H ∧ j < W := by
+  obtain ⟨thr, hthr⟩ : ∃ thr, percentileThr imgT pct = some thr := by
+    obtain ⟨_, hcase⟩ := greyDilationK_some hRT
+    rcases hcase with ⟨_, rfl⟩ | ⟨thr, hthr, _⟩
+    · simp at hp
+    · exact ⟨thr, hthr⟩
+  have := ((maxima_iff imgT sep pct margin? RT thr hRT hthr p).mp hp).1
+  rw [h.shapeT] at this
+  obtain ⟨j, i, rfl, hj, hi⟩ := (inImage2 _ _ _).mp this
+  exact ⟨i, j, rfl, hi, hj⟩
+
+/-- non-vacuity: a 2×3 image and `Locate.revImg` of it -/
+def exT : Image := ⟨[2, 3], #[1, 5, 1, 1, 1, 7]⟩
+example : isTransposeB exT (revImg exT) 2 3 = true := by decide +kernel
+example : greyDilation exT [2, 2] 0 (some [0, 0]) false = some [[1, 2]] := by decide +kernel
+example : greyDilation (revImg exT) [2, 2] 0 (some [0, 0]) false = some [[2, 1]] := by decide +kernel
+
+/-! ## where_close: what is dropped does not depend on the row order (no full ties) -/
+
+/-- the tie-break key `Σ pᵢ/sᵢ` is symmetric under exchanging the axes of positions and
+separations together -/
+theorem exactKey_swap (s0 s1 : Rat) (a b : Int) : exactKey [s1, s0] [b, a] = exactKey [s0, s1] [a, b] := by
+  simp [exactKey, add_comm]
+
+/-- … and so is the distance in units of the separation -/
+theorem dist2_swap (s0 s1 : Rat) (a b c d : Int) :
+    dist2 [s1, s0] [b, a] [d, c] = dist2 [s0, s1] [a, b] [c, d] := by
+  simp [dist2, add_comm]
+
+/-- `g` beats `f`: brighter, or equally bright with the larger key -/
+def Beats (g f : Feat) : Prop := f.inten < g.inten ∨ (f.inten = g.inten ∧ f.key < g.key)
+
+theorem pair_sublist_lt {α} {k : Nat} {l : List α} {a b : Nat × α} (ha : a ∈ indexFrom k l)
+    (hb : b ∈ indexFrom k l) (h : a.1 < b.1) : [a, b].Sublist (indexFrom k l) := by
+  have hne : a ≠ b := by intro e; rw [e] at h; omega
+  rcases pair_sublist_of_mem ha hb hne with h' | h'
+  · exact h'
+  · have := sublist_pair_lt h'; omega
+
+/-- **whereClose_dominated.**  If no two features within separation of each other are in a full
+tie (equal brightness AND equal key), then `where_close` drops exactly the features that have a
+neighbour within separation which `Beats` them — a description that mentions neither the row
+order nor the axis order (brightness, key and distance are invariant under transposition by
+`exactKey_swap`, `dist2_swap`), so the de-duplication commutes with transposition and with any
+reordering of the rows.  A full tie is decided by the row order (find.py:49 keeps `index_1`). -/
+theorem whereClose_dominated (sep : List Rat) (fs : List Feat) (hs : ∀ s ∈ sep, s ≠ 0)
+    (hnt : ∀ a b, [a, b].Sublist (indexFrom 0 fs) → close sep a.2 b.2 = true →
+      ¬ (a.2.inten = b.2.inten ∧ a.2.key = b.2.key))
+    (i : Nat) (f : Feat) (hi : (i, f) ∈ indexFrom 0 fs) :
+    i ∈ whereClose sep fs ↔
+      ∃ j g, (j, g) ∈ indexFrom 0 fs ∧ j ≠ i ∧ close sep f g = true ∧ Beats g f := by
+  rw [mem_whereClose sep fs hs]
+  constructor
+  · rintro ⟨⟨ai, af⟩, ⟨bi, bf⟩, hsub, hc, hd⟩
+    have hlt : ai < bi := sublist_pair_lt hsub
+    have ha : (ai, af) ∈ indexFrom 0 fs := hsub.subset (by simp)
+    have hb : (bi, bf) ∈ indexFrom 0 fs := hsub.subset (by simp)
+    have hnt' := hnt _ _ hsub hc
+    simp only at hc hnt'
+    unfold pairDrop at hd
+    simp only at hd
+    split_ifs at hd with h1 h2 h3
+    · -- a brighter: b dropped
+      have e : (i, f) = (bi, bf) := indexFrom_fst_inj hi hb hd
+      obtain ⟨rfl, rfl⟩ := Prod.mk.inj e
+      exact ⟨ai, af, ha, by omega, by rw [close_comm]; exact hc, Or.inl h1⟩
+    · have e : (i, f) = (bi, bf) := indexFrom_fst_inj hi hb hd
+      obtain ⟨rfl, rfl⟩ := Prod.mk.inj e
+      exact ⟨ai, af, ha, by omega, by rw [close_comm]; exact hc, Or.inr ⟨h2.symm, h3⟩⟩
+    · have e : (i, f) = (ai, af) := indexFrom_fst_inj hi ha hd
+      obtain ⟨rfl, rfl⟩ := Prod.mk.inj e
+      refine ⟨bi, bf, hb, by omega, hc, Or.inr ⟨h2, ?_⟩⟩
+      rcases lt_trichotomy f.key bf.key with h | h | h
+      · exact h
+      · exact absurd ⟨h2, h⟩ hnt'
+      · exact absurd h h3
+    · have e : (i, f) = (ai, af) := indexFrom_fst_inj hi ha hd
+      obtain ⟨rfl, rfl⟩ := Prod.mk.inj e
+      refine ⟨bi, bf, hb, by omega, hc, Or.inl ?_⟩
+      omega
+  · rintro ⟨j, g, hj, hji, hc, hbeat⟩
+    rcases Nat.lt_or_gt_of_ne hji with hlt | hgt
+    · -- g comes first
+      have hsub : [(j, g), (i, f)].Sublist (indexFrom 0 fs) := pair_sublist_lt hj hi hlt
+      refine ⟨(j, g), (i, f), hsub, by rw [close_comm]; exact hc, ?_⟩
+      unfold pairDrop
+      rcases hbeat with h | ⟨h1, h2⟩
+      · simp [h]
+      · simp [h1, h2]
+    · have hsub : [(i, f), (j, g)].Sublist (indexFrom 0 fs) := pair_sublist_lt hi hj hgt
+      refine ⟨(i, f), (j, g), hsub, hc, ?_⟩
+      unfold pairDrop
+      rcases hbeat with h | ⟨h1, h2⟩
+      · have h' : ¬ f.inten > g.inten := by omega
+        have h'' : ¬ f.inten = g.inten := by omega
+        simp [h', h'']
+      · have h' : ¬ f.key > g.key := not_lt.mpr (le_of_lt h2)
+        simp [h1, h']
+
+end find
 
 /-! ## refine_com under transposition (2-D) -/
 
